@@ -76,6 +76,19 @@ def tla_value(v):
 CONSTS = ["G", "NodeIds", "CfgC", "DryAll", "AsgMin0", "AsgMax0", "AsgBoundsSet", "KC", "KM", "MaxPend", "EnvOn", "FaultOps",
           "MaxFaults", "TaintKinds", "InitNodes", "PropIds", "EmitRate"]
 
+def write_sim_model(d, outdir, depth, name="MCSim"):
+    """Escalator.tla family d as a simulation model that emits behaviours (EscalatorSim.tla)"""
+    lines = ["---- MODULE %s ----" % name, "EXTENDS EscalatorSim"]
+    for c in CONSTS:
+        lines.append("mc_%s == %s" % (c, tla_value(d[c])))
+    lines.append("mc_SimDepth == %d" % depth)
+    lines.append("====")
+    open("%s/%s.tla" % (outdir, name), "w").write("\n".join(lines) + "\n")
+    cfg = ["CONSTANTS"] + ["  %s <- mc_%s" % (c, c) for c in CONSTS] + ["  SimDepth <- mc_SimDepth"]
+    cfg += ["INIT SimInit", "NEXT SimNext", "INVARIANTS TypeOK EmitInit EmitBehaviour", "CHECK_DEADLOCK FALSE"]
+    open("%s/%s.cfg" % (outdir, name), "w").write("\n".join(cfg) + "\n")
+
+
 MULTI_CONSTS = ["Gs", "NodeIdsOf", "CfgOf", "AsgMinOf", "DryAll", "AsgMax0", "KC", "KM", "MaxPend", "EnvOn", "FaultOps", "MaxFaults", "InitNodes", "PropIds", "EmitRate"]
 
 
